@@ -114,7 +114,7 @@ def classify(res):
     return out
 
 
-def evaluate(rng, tier, judge, n_quick=150, n_thorough=1500, runs=3, cli_share=0.12):
+def evaluate(rng, tier, judge, n_quick=150, n_thorough=1500, runs=3, cli_share=0.2):
     n = n_quick if tier == "quick" else n_thorough
     failures, hist, samples = [], collections.Counter(), []
     seen = set()
